@@ -26,7 +26,10 @@ Exploration: configuration space (K) plus, for the FFTW back-end, call histories
             divisible by 2**nlevels the matrices of ``W.adjoint`` / ``W.inverse.adjoint`` equal
             the weighted transposes.
 
-FFTW wisdom is process-global: every state starts with ``pyfftw.forget_wisdom()``.
+Hidden state owned by the harness: FFTW wisdom is process-global, so every state starts with
+``pyfftw.forget_wisdom()``; FFTW_MEASURE picks algorithms by *timing*, so whether a plan flagged
+FFTW_DESTROY_INPUT really overwrites the caller's array is not a function of the configuration --
+that effect is not judged, its deterministic cause is counted (see ``_exposed_to_destroy_input``).
 """
 import functools
 import itertools
